@@ -68,7 +68,7 @@ func class(s limgen.Sample) string {
 }
 
 func TestCheck(t *testing.T) {
-	rt.Cases(3000, 3000000, func(idx int64) {
+	rt.Cases(20000, 3000000, func(idx int64) {
 		r := rt.CaseRand(4, idx)
 		rt.Case()
 		kind := limgen.Kinds[r.IntN(4)]
